@@ -360,6 +360,7 @@ func (w *World) crashServer(sv *Server, lossy int) {
 		return
 	}
 	sv.Up = false
+	sv.lastWorldChange = s.now()
 	s.trace("MYSQL-CRASH %s lossy=%d", sv.Name, lossy)
 	for _, wt := range sv.waiters {
 		wt.done("unknown")
@@ -398,6 +399,7 @@ func (w *World) startServer(sv *Server) {
 		return
 	}
 	sv.Up = true
+	sv.lastWorldChange = s.now() // a (re)start is the scenario's doing, whenever it was scheduled
 	sv.Epoch++
 	sv.StartedAt = s.now()
 	sv.ReadOnly, sv.SuperRO, sv.Offline = true, true, true
